@@ -56,6 +56,8 @@ type Env struct {
 	symHeaps      []*symHeapCollector
 	curState      *State
 	replay        *ReplayInfo
+	asserted      map[string]bool
+	opaque        map[string]bool
 }
 
 func newEnv(w *World, top string, timeoutMs int) (*Env, error) {
@@ -84,6 +86,13 @@ func (e *Env) assume(fact string) {
 	if fact == tTrue || e.quantDepth > 0 {
 		return
 	}
+	if e.asserted == nil {
+		e.asserted = map[string]bool{}
+	}
+	if e.asserted[fact] {
+		return
+	}
+	e.asserted[fact] = true
 	e.sess.Cmd("(assert " + fact + ")")
 }
 
